@@ -216,6 +216,7 @@ func runC07(c *report.Ctx) {
 	ruleGapWindowExtends(c)
 	ruleLayout(c, []string{"wallet-status-value"}, 2)
 	ruleSelectionResetOnDelete(c)
+	ruleLastTxBoundInclusive(c)
 }
 
 func stripIface(v ssa.Value) ssa.Value {
